@@ -189,12 +189,12 @@ func C08(run *Run) {
 	}
 	v := NewVariantsDS(ds)
 	defer v.Close()
-	nCases := run.Pick(60, 1200)
+	nCases := run.Pick(40, 1000)
 	rec := &Recorder{}
 	cmdEngines := []string{"v1c:default", "v1c:weight2", "v1c:recursive", "v2c:default", "v2c:weight2", "v2c:recursive"}
 	srvEngines := []string{"server:qc", "server:v2:qc"}
 	for c := 0; c < nCases; c++ {
-		cs, _ := GenCase(r, c, GenOpts{MinTuples: 10, MaxTuples: 20})
+		cs, _ := GenCase(r, c, GenOpts{MinTuples: 10, MaxTuples: 20, ForceCycles: c%2 == 1})
 		// part of the tuples travel as contextual tuples of some requests: the same sub-problem
 		// is then asked with different contextual tuples within one cache lifetime
 		stored, ctxt := splitTuples(r, cs)
@@ -231,6 +231,16 @@ func C08(run *Run) {
 			if (q.U == subj || chance(r, 0.25)) && len(seq) < 8 {
 				q.Ctx = reqs[0].Ctx
 				seq = append(seq, q)
+			}
+		}
+		// the sub-problems behind userset tuples, asked as requests of their own after the outer
+		// ones: an entry cached while resolving an outer request is then hit as a root
+		for _, t := range stored {
+			if t.U.Rel != "" && len(seq) < 12 && cs.Model.Rel(t.U.T, t.U.Rel) != nil && chance(r, 0.6) {
+				seq = append(seq, Req{O: Obj{t.U.T, t.U.ID}, R: t.U.Rel, U: subj, Ctx: reqs[0].Ctx})
+				if len(seq) < 12 {
+					seq = append(seq, Req{O: t.O, R: t.R, U: subj, Ctx: reqs[0].Ctx})
+				}
 			}
 		}
 		order := func(pass int) []Req {
